@@ -21,6 +21,8 @@ func init() {
 		},
 		Run: runC05,
 		Controls: []Control{
+			{Name: "policy-rewrites-the-stored-path", File: "routingtable/filter/chain.go", Old: "\tmp := pa.Copy()\n", New: "\tmp := pa\n", Expect: "policy-works-on-a-copy"},
+			{Name: "flush-removes-best-path-only", File: "routingtable/adjRIBIn/adj_rib_in.go", Old: "\t\tfor _, path := range route.Paths() {\n\t\t\ta.removePath(route.Prefix(), path)\n\t\t}\n", New: "\t\ta.removePath(route.Prefix(), route.BestPath())\n", Expect: "flush-removes-every-path"},
 			{Name: "identifier-zero-means-none", File: "routingtable/adjRIBIn/adj_rib_in.go", Old: "\t\tif a.sessionAttrs.AddPathRX {\n\t\t\tif p != nil && path.BGPPath.PathIdentifier != p.BGPPath.PathIdentifier {", New: "\t\tif a.sessionAttrs.AddPathRX && p != nil && p.BGPPath.PathIdentifier != 0 {\n\t\t\tif p != nil && path.BGPPath.PathIdentifier != p.BGPPath.PathIdentifier {", Expect: "path-identifier-is-opaque"},
 			{Name: "source-compared-with-itself", File: "route/bgp_path.go", Old: "\tif b.Source.Compare(c.Source) != 0 {", New: "\tif b.Source.Compare(b.Source) != 0 {", Expect: "withdrawal-matches-own-path"},
 			{Name: "withdraw-sends-stored-path", File: "routingtable/adjRIBIn/adj_rib_in.go", Old: "\t\tpath, reject := a.exportFilterChain.Process(pfx, path)\n\t\tif reject {\n\t\t\tcontinue\n\t\t}\n\t\tfor _, client := range a.clientManager.Clients() {\n\t\t\tclient.RemovePath(pfx, path)", New: "\t\t_, reject := a.exportFilterChain.Process(pfx, path)\n\t\tif reject {\n\t\t\tcontinue\n\t\t}\n\t\tfor _, client := range a.clientManager.Clients() {\n\t\t\tclient.RemovePath(pfx, path)", Expect: "post-policy-paths-only"},
@@ -96,6 +98,9 @@ func runC05(c *core.Ctx) {
 	// removing "what the session contributed" finds the path through the identity relation Path.Compare
 	identityOperandCoverage(c, "withdrawal-matches-own-path")
 	pathIDOpaque(c, "path-identifier-is-opaque")
+	// the import policy never rewrites the stored path: it works on a copy (re-running it for a withdrawal gives the same result)
+	processCopiesFirst(c, "policy-works-on-a-copy")
+	flushRemovesEveryPath(c)
 	if p.Pkg(adjIn) == nil {
 		c.Undecided("anchor", adjIn, token.NoPos, "package not found")
 		return
@@ -319,4 +324,49 @@ func dominatesStructurally(f *core.Fn, st ast.Stmt, use ast.Node, usePath []ast.
 		}
 	}
 	return false
+}
+
+// flushRemovesEveryPath: Flush (session end, BMP peer down) removes everything the session stored.  With add-path receive a
+// prefix holds several paths and removePath matches one path identifier per call: the call has to be made for every
+// path of every route — inside a range over the route's paths inside a range over the table dump, neither left early,
+// with the inner loop variable as the path.
+func flushRemovesEveryPath(c *core.Ctx) {
+	const rule = "flush-removes-every-path"
+	p := c.P
+	c.Floor(rule, 1)
+	f := c.MustFunc(adjIn + ".(*AdjRIBIn).Flush")
+	rm := p.Func(adjIn + ".(*AdjRIBIn).removePath")
+	if f == nil || rm == nil {
+		return
+	}
+	c.Analysed(f)
+	calls := core.Calls(f.Pkg, f.Decl.Body, func(o *types.Func) bool { return o == rm.Obj })
+	ok, why := len(calls) >= 1, "Flush no longer removes paths through removePath"
+	for _, call := range calls {
+		var loops []*ast.RangeStmt
+		for _, anc := range core.PathTo(f.Decl.Body, call) {
+			if rs, isR := anc.(*ast.RangeStmt); isR {
+				loops = append(loops, rs)
+			}
+		}
+		overPaths := false
+		for _, rs := range loops {
+			if len(loopExits(rs.Body)) > 0 {
+				ok, why = false, "a loop around the removal is left early"
+			}
+			if cl, isCall := core.Unparen(rs.X).(*ast.CallExpr); isCall && core.FuncKey(core.Callee(f.Pkg, cl)) == "route.(*Route).Paths" {
+				if rs.Value != nil && len(call.Args) == 2 && core.ObjOf(f.Pkg, call.Args[1]) == core.ObjOf(f.Pkg, rs.Value) {
+					overPaths = true
+				}
+			}
+		}
+		if len(loops) < 2 || !overPaths {
+			ok, why = false, "removePath is not called for every path of every route (range over route.Paths() inside the range over the table, with the path of the inner loop)"
+		}
+	}
+	pos := f.Decl.Pos()
+	if len(calls) > 0 {
+		pos = calls[0].Pos()
+	}
+	c.Check(ok, rule, f.Name()+" removes every stored path of every route", pos, why+": on an add-path session the paths with other identifiers stay in the Adj-RIB-In and in the Loc-RIB after the session ended")
 }
